@@ -139,6 +139,9 @@ pub struct AgentScenario {
     /// Run the scripted agent of W-FAKEAGENT (value lanes val / tval only) instead of the real agent model.
     #[serde(default)]
     pub fake: Option<super::fake::FailPlan>,
+    /// The scripted agent in persistent mode (focus C05F).
+    #[serde(default, skip_serializing_if = "Option::is_none")]
+    pub fake_persist: Option<super::fake::PersistPlan>,
 }
 
 pub fn val_lane_item(lane: &str) -> Option<i32> {
@@ -218,6 +221,7 @@ fn mix_for(focus: &str) -> Mix {
         "C04" => Mix { value: 4, map: 4, smap: 1, supply: 2, command: 1, send: 0, stores: 0, link_churn: 6, unknown_lane: 2, disconnect: 2, sync: 4 },
         "C05" => Mix { value: 5, map: 6, smap: 1, supply: 0, command: 0, send: 0, stores: 4, link_churn: 1, unknown_lane: 0, disconnect: 0, sync: 2 },
         "C14" => Mix { value: 2, map: 0, smap: 0, supply: 8, command: 6, send: 6, stores: 0, link_churn: 2, unknown_lane: 0, disconnect: 0, sync: 1 },
+        "C05F" => Mix { value: 10, map: 0, smap: 0, supply: 0, command: 0, send: 0, stores: 0, link_churn: 3, unknown_lane: 0, disconnect: 0, sync: 3 },
         "C04F" => Mix { value: 8, map: 0, smap: 0, supply: 0, command: 0, send: 0, stores: 0, link_churn: 4, unknown_lane: 1, disconnect: 1, sync: 4 },
         "C20" => Mix { value: 3, map: 3, smap: 0, supply: 2, command: 2, send: 0, stores: 0, link_churn: 8, unknown_lane: 1, disconnect: 3, sync: 2 },
         _ => Mix { value: 4, map: 4, smap: 1, supply: 2, command: 2, send: 1, stores: 1, link_churn: 2, unknown_lane: 1, disconnect: 1, sync: 3 },
@@ -246,7 +250,7 @@ fn gen_read(rng: &mut Rng, slow_bias: bool) -> ReadCfg {
 
 pub fn generate(seed: u64, focus: &str, _tier: Tier) -> AgentScenario {
     let root = Rng::new(seed);
-    let mut g = Gen { rng: root.sub("scenario"), next_val: 1000, fake: focus == "C04F" };
+    let mut g = Gen { rng: root.sub("scenario"), next_val: 1000, fake: focus == "C04F" || focus == "C05F" };
     let mix = mix_for(focus);
     let small = g.rng.chance(3, 4);
     let buf_choices: &[u32] = if small { &[8, 12, 16, 24, 32, 48, 64, 128] } else { &[256, 4096] };
@@ -271,7 +275,7 @@ pub fn generate(seed: u64, focus: &str, _tier: Tier) -> AgentScenario {
         sched_seed: root.sub("sched").next_u64(),
         tokio_seed: root.sub("tokio").next_u64(),
         hash_seed: root.sub("hash").next_u64() | 1,
-        persistent: focus != "C04F" && (focus == "C05" || g.rng.chance(1, 3)),
+        persistent: focus != "C04F" && (focus == "C05" || focus == "C05F" || g.rng.chance(1, 3)),
         target_cap: *g.rng.pick(&[8u32, 16, 32, 64, 4096]),
         target_read: gen_read(&mut g.rng, true),
         link_delay: *g.rng.pick(&[0u32, 0, 3, 20]),
@@ -430,10 +434,30 @@ pub fn generate(seed: u64, focus: &str, _tier: Tier) -> AgentScenario {
         };
         store_fault = StoreFaultCfg::None;
     }
+    let fake_persist = if focus == "C05F" {
+        let mut fr = root.sub("fake-persist");
+        let late_map_after = if fr.chance(1, 2) { Some(fr.range(0, 12) as u32) } else { None };
+        if late_map_after.is_some() {
+            // Somebody has to read the late lane: link requests for it at several points of every script (the first
+            // ones may be answered with lane-not-found).
+            for p in peers.iter_mut() {
+                let n = p.ops.len();
+                for frac in [2usize, 3, 4] {
+                    let pos = (n * (frac - 1) / frac + 1).min(p.ops.len());
+                    p.ops.insert(pos, Op::Link { lane: "map".into() });
+                }
+                p.ops.push(Op::Link { lane: "map".into() });
+            }
+        }
+        Some(super::fake::PersistPlan { mirror_store: fr.chance(2, 3), late_map_after })
+    } else {
+        None
+    };
     AgentScenario {
         fake,
+        fake_persist,
         focus: focus.to_string(),
-        restart: knobs.persistent && (focus == "C05" || g.rng.chance(1, 4)),
+        restart: knobs.persistent && focus != "C05F" && (focus == "C05" || g.rng.chance(1, 4)),
         restart_read_fault: {
             let mut fr = root.sub("restart-read-fault");
             if focus == "C05" && knobs.persistent && fr.chance(1, 6) { Some(fr.range(0, 8)) } else { None }
